@@ -2,6 +2,8 @@
 from engine import (Tracer, EdgeFacts, find_calls, find_aggs, AnchorMissing, leaf_str, leaf_call_is, callee_def, callee_names, name_matches)
 import rpanic
 
+import rrec
+
 EXPLANATION = (
     "Decides structural clauses of C17 on the MIR of filters, tests, functions and args: (PANIC) the set of panic-capable sites (indexing, "
     "unwrap/expect, explicit panics, division, signed/128-bit overflow checks, std functions with documented panics) is exactly the reviewed "
@@ -17,7 +19,7 @@ ASSUMPTIONS = []
 def run(ctx, rep):
     for cfg in ctx.tera_configs():
         crate = ctx.crate(cfg)
-        rpanic.check(crate, rep, "R-PANIC.builtins", ("filters.rs", "tests.rs", "functions.rs", "args.rs"), cfg, 30)
+        rpanic.check(crate, rep, "R-PANIC.builtins", ("filters.rs", "tests.rs", "functions.rs", "args.rs"), cfg, 25)
         check_pre(crate, rep, cfg)
         check_iterable(crate, rep, cfg)
 
@@ -62,21 +64,27 @@ def check_pre(crate, rep, cfg):
                 continue
             for tgt, fl in ef.facts_for_switch(sb).items():
                 for f in fl:
-                    if f[0] == "cmp" and f[1] == "Gt" and f[4] is False and b.dominates(tgt, cb) and tgt != sb:
-                        # right-hand side is the constant MAX_RANGE_LEN (possibly through `as i128`)
+                    if f[0] == "cmp" and b.dominates(tgt, cb) and tgt != sb:
+                        # one side is the constant MAX_RANGE_LEN (possibly through `as i128`); the edge must be the within-limit one,
+                        # whichever way round the comparison is written
                         d = ef.single_def(b.term(sb)["op"]["pl"]["l"])
                         if d and d[3]["k"] == "bin":
-                            r = d[3]["r"]
-                            is_const = r["k"] == "const" and r.get("v") == (crate.consts.get("functions::MAX_RANGE_LEN") or {}).get("v")
-                            if not is_const and r["k"] in ("copy", "move"):
-                                for (b2, i2, dp, rv) in b.defs.get(r["pl"]["l"], []):
-                                    if rv["k"] in ("cast", "use") and rv["op"]["k"] == "const" and rv["op"].get("v") == (crate.consts.get("functions::MAX_RANGE_LEN") or {}).get("v"):
-                                        is_const = True
-                            if is_const:
+                            maxv = (crate.consts.get("functions::MAX_RANGE_LEN") or {}).get("v")
+
+                            def is_max(r):
+                                if r["k"] == "const":
+                                    return maxv is not None and r.get("v") == maxv
+                                if r["k"] in ("copy", "move"):
+                                    for (b2, i2, dp, rv) in b.defs.get(r["pl"]["l"], []):
+                                        if rv["k"] in ("cast", "use") and rv["op"]["k"] == "const" and maxv is not None and rv["op"].get("v") == maxv:
+                                            return True
+                                return False
+                            side = "r" if is_max(d[3]["r"]) else ("l" if is_max(d[3]["l"]) else None)
+                            if side and rrec.NOT_EXCEEDING.get((f[1], side)) == f[4]:
                                 dom = True
         ok = ok and dom
-    rep.add("C17.PRE", "C17.PRE:range:len-capped", ok, b.where(caps[0]) if caps else b.where(0), "Vec::with_capacity(len) and the fill loop of `range` are dominated by the false edge "
-            "of `len > MAX_RANGE_LEN`" + ("" if ok else " — VIOLATED"))
+    rep.add("C17.PRE", "C17.PRE:range:len-capped", ok, b.where(caps[0]) if caps else b.where(0), "Vec::with_capacity(len) and the fill loop of `range` are dominated by the within-limit edge "
+            "of the comparison of len with MAX_RANGE_LEN" + ("" if ok else " — VIOLATED"))
     n_checked = len([1 for bb, t in b.calls() if any(x in callee_def(t) for x in ("checked_sub", "checked_add", "checked_neg"))])
     rep.add("C17.PRE", "C17.PRE:range:checked-length", n_checked >= 5, b.where(0), "the length of `range` is computed through checked_sub/checked_add/checked_neg (%d sites)" % n_checked
             + ("" if n_checked >= 5 else " — VIOLATED"))
